@@ -91,10 +91,10 @@ PROPS = {
                 rule=GEN_RULE + "instance B additionally executes generated no-effect calls (peek lookups, missing lookups, rejected inserts, erases of absent keys; decided by the model at run time); "
                 "non-trivial = at least one spliced call followed by at least one eviction or aging point",
                 needs=["splices_executed", "evictions_after_splice"]),
-    "C20": dict(mode="twin-clear", profile="clear", **tiers(8000, 60, 60000, 120),
+    "C20": dict(mode="twin-clear", profile="clear", crash_rule="after_clear", **tiers(8000, 60, 60000, 120),
                 rule=GEN_RULE + "instance B is constructed fresh (same capacity, currently configured TTL) at the last clear() of the history and both run the continuation; "
                 "non-trivial = clear() on a non-empty container and a continuation with at least one eviction (utlru) or expiry",
-                needs=["twin_created_after_clear", "evictions_after_clear"]),
+                needs=["twin_created_after_clear", "clear_on_nonempty"]),
     "C17": dict(mode="model", profile="clean", **tiers(8000, 60, 60000, 120),
                 rule=GEN_RULE + "non-trivial = clean_expired_values() called with at least one live and at least one expired resident",
                 needs=["clean_with_live_and_expired"]),
